@@ -53,9 +53,7 @@ seeded("a3-mechanism-true-on-no", ["C10"], "A3", [(M, '''        code, data = se
         return False''', '''        code, data = self.__send_command("AUTHENTICATE", [b"PLAIN", params])
         return code is not None''')])
 seeded("a3-no-reset", ["C10"], "A3", [(M, '''        self.authenticated = False
-
-        if not self.__get_capabilities():''', '''
-        if not self.__get_capabilities():''')])
+        self.__capabilities = {}''', '''        self.__capabilities = {}''')])
 seeded("a3-flag-set-in-starttls", ["C10"], "A3", [(M, '''        self.sock = nsock
 ''', '''        self.sock = nsock
         self.authenticated = True
@@ -213,9 +211,12 @@ benign("c05-while-len", ["C05"], [(M, '''        while size:
 ''')], "other accepted loop idiom")
 benign("c05-crlf-const-2", ["C05"], [(M, "self.__read_buffer = self.__read_buffer[pos + len(CRLF) :]", "self.__read_buffer = self.__read_buffer[pos + 2 :]")])
 benign("c05-buffer-reset-on-connect", ["C05", "C15"], [(M, '''        self.authenticated = False
-''', '''        self.authenticated = False
+        self.__capabilities = {}
         self.__read_buffer = b""
-''')])
+''', '''        self.__read_buffer = b""
+        self.authenticated = False
+        self.__capabilities = {}
+''')], "order of the three independent resets")
 benign("c05-size-pattern-digits-class", ["C05"], [(M, r'''re.compile(rb"\{(\d+)\+?\}")''', r'''re.compile(rb"\{([0-9]+)\+?\}")''')])
 
 # --------------------------------------------------------------------------- C09
@@ -1477,3 +1478,23 @@ benign("c04-refill-drops-with-del", ["C04", "C03"], [(C, '''                    
 ''', '''                    if curarg["name"] in self.extra_arguments:
                         del self.extra_arguments[curarg["name"]]
 ''')])
+
+seeded("a8-capabilities-survive-reconnect", ["C10", "C16", "C14", "C15", "C05"], "A8", [(M, '''        self.__capabilities = {}
+        self.__read_buffer = b""
+
+        if not self.__get_capabilities():''', '''        self.__read_buffer = b""
+
+        if not self.__get_capabilities():''')], "the defect repaired by 87013df (capability half)")
+seeded("a8-buffer-survives-reconnect", ["C10", "C05", "C15"], "A8", [(M, '''        self.__capabilities = {}
+        self.__read_buffer = b""
+
+        if not self.__get_capabilities():''', '''        self.__capabilities = {}
+
+        if not self.__get_capabilities():''')], "the defect repaired by 87013df (buffer half)")
+benign("a8-reset-with-clear", ["C10"], [(M, '''        self.__capabilities = {}
+        self.__read_buffer = b""
+
+        if not self.__get_capabilities():''', '''        self.__capabilities.clear()
+        self.__read_buffer = b""
+
+        if not self.__get_capabilities():''')])
